@@ -182,6 +182,51 @@ def run(ctx):
         events.append({"kind": "type", "raised": raised})
         meta.append(("type", type(bad).__name__))
         ctx.case(("type", type(bad).__name__), None, nontrivial=False)
+        for kwcall in (lambda: EDFA(input=bad, G=10, NF=5), lambda: EDFA(bad, G=10, NF=5, BW=1e9)):       # the same verdict however the call is written
+            try:
+                kwcall()
+                raised = "ok"
+            except TypeError:
+                raised = "TypeError"
+            except Exception as e:
+                raised = type(e).__name__
+            events.append({"kind": "type", "raised": raised})
+            meta.append(("type", type(bad).__name__ + "-keyword"))
+    # records of one, two and three samples (deterministic clauses only: a draw block cannot be attributed on so few samples)
+    with warnings.catch_warnings():
+        warnings.simplefilter("ignore")
+        gv(sps=8, R=1e9)
+    for n_ in (1, 2, 3):
+        for npol_ in (1, 2):
+            for noisy_ in (False, True):
+                rs_ = np.random.RandomState(n_ * 7 + npol_)
+                s_ = rs_.randn(npol_, n_) + 1j * rs_.randn(npol_, n_)
+                nz_ = (rs_.randn(npol_, n_) + 0j) * 0.1 if noisy_ else None
+                x_ = optical_signal(s_ if npol_ == 2 else s_[0], None if nz_ is None else (nz_ if npol_ == 2 else nz_[0]))
+                np.random.seed(n_)
+                with deadline(60):
+                    o_ = EDFA(x_, 20.0, 5.0)
+                so_ = np.asarray(o_.signal)
+                want_ = np.zeros((2, n_), dtype=complex)
+                want_[:npol_] = 10.0 * s_
+                if not (type(o_) is optical_signal and o_.n_pol == 2 and so_.shape == (2, n_) and o_.noise is not None and np.asarray(o_.noise).shape == (2, n_)):
+                    ctx.violation("tiny:layout", f"EDFA on a {npol_}-polarisation record of {n_} samples: output layout {so_.shape}", {"n": n_, "npol": npol_})
+                elif not np.allclose(so_, want_, rtol=1e-12, atol=0):
+                    ctx.violation("tiny:signal-part", f"EDFA on a {npol_}-polarisation record of {n_} samples: signal part is not sqrt(G) * input in the polarisations present "
+                                  f"(max deviation {np.max(np.abs(so_ - want_)):.3g})", {"n": n_, "npol": npol_})
+                ctx.case(("tiny", n_, npol_, noisy_), None)
+    # freshly drawn: two calls in a row (no re-seeding, nothing else drawn in between) do not repeat the ASE
+    xs_ = optical_signal(np.full(64, 0.01 + 0j))
+    np.random.seed(77)
+    with deadline(60):
+        a1, a2 = EDFA(xs_, 20.0, 5.0).noise, EDFA(xs_, 20.0, 5.0).noise
+        np.random.seed(77)
+        a3 = EDFA(xs_, 20.0, 5.0).noise
+    if np.array_equal(a1, a2):
+        ctx.violation("ase-not-freshly-drawn", "two consecutive EDFA calls returned the same ASE realisation", {})
+    if not np.array_equal(a1, a3):
+        ctx.violation("ase-not-reproducible", "the same seed did not reproduce the ASE realisation", {})
+    ctx.case(("consecutive-calls",), None)
     gv.clean()
     ctx.assumptions.append("ASE draws are observed by interposing numpy.random.randn/normal/standard_normal in the harness; if a refactoring draws "
                            "differently the check falls back to the statement's six-sigma band on the sample variance")
